@@ -101,9 +101,9 @@ def make_command(kind, ev, plan):
     class Cmd(base):
         async def setup(self):
             ev.add("setup")
-            self.transport = FakeTransport(ev)
             self.dumpcap = None
-            plan(SETUP)
+            plan(SETUP)  # e.g. the connection attempt fails: the transport attribute is never assigned
+            self.transport = FakeTransport(ev)
 
         async def main(self):
             ev.add("main")
